@@ -50,3 +50,17 @@ def reuse_manifest_obls(prefix):
                 functions=["ldb_versions_reuse_manifest", "target_file_size"],
                 desc="real ldb_versions_reuse_manifest: reuse iff allowed/parsable/small/openable; the appending log writer is created with exactly the MANIFEST's size",
                 bounds="all option values, sizes, numbers, failure combinations")]
+
+
+def add_iterators_obls(prefix):
+    out = []
+    for (l0, deep) in ((0, 6), (2, 6), (1, 1), (2, 3)):
+        out.append(Obl("%s.version-add-iterators-L0x%d-deep%d" % (prefix, l0, deep), "vset/add_iterators.c",
+                       real=["util/options.c", "util/comparator.c", "dbformat.c", "util/buffer.c", "util/slice.c", "table/iterator.c"],
+                       include_real=["version_set.c", "util/vector.c"], kit=KIT,
+                       defs={"VP_L0": l0, "VP_DEEP": deep, "VP_ALLOC_TRACK": 4},
+                       unwind=8, unwindset={"ldb_realloc.0": 5, "vp_realloc_ptrs.0": 9, "vp_realloc_ptrs.1": 6, "vp_realloc_ptrs.2": 10},
+                       timeout=900, functions=["ldb_version_add_iterators", "ldb_concatiter_create"],
+                       desc="real ldb_version_add_iterators: one child per level-0 file plus one two-level iterator per non-empty level 1..6",
+                       bounds="%d level-0 files, one file on level %d" % (l0, deep)))
+    return out
